@@ -225,11 +225,13 @@ func Yield(ctx context.Context, point string) {
 
 // Exchange is one HTTP request/response pair.
 type Exchange struct {
-	PumpErrLive bool // the request body failed (not EOF) while the response was still open: stream reset
-	PumpErrLate bool // ... after the response had ended: ignored
-	Call        *Call
-	Up          *Link // client -> handler (request body)
-	Down        *Link // handler -> client (response body)
+	pumpInRead     bool
+	CtxNoticedLate bool // the context finished while nobody was watching it; it was noticed when the request-body read returned
+	PumpErrLive    bool // the request body failed (not EOF) while the response was still open: stream reset
+	PumpErrLate    bool // ... after the response had ended: ignored
+	Call           *Call
+	Up             *Link // client -> handler (request body)
+	Down           *Link // handler -> client (response body)
 
 	mu              sync.Mutex
 	ReqHeader       http.Header // as the handler sees it
@@ -372,6 +374,7 @@ func (n *Net) Do(req *http.Request) (*http.Response, error) {
 	resp.Body = &respBody{e: e, resp: resp}
 	e.resp = resp
 	e.RespReturned = true
+	e.updateDeaf()
 	return resp, nil
 }
 
@@ -453,6 +456,19 @@ func (e *Exchange) runWatcher() {
 	e.Abort(err)
 }
 
+//go:norace
+//go:noinline
+func (e *Exchange) pumpErrLive() bool { return e.PumpErrLive }
+
+// updateDeaf recomputes whether anybody is watching the client's context;
+// call with mu held. net/http's HTTP/1.1 transport always is (its read loop
+// selects on the context); the HTTP/2 transport, once RoundTrip has returned,
+// leaves that to the request goroutine, which cannot while it is blocked
+// reading the request body.
+func (e *Exchange) updateDeaf() {
+	e.Call.Ctx.SetDeaf(e.Call.K.HTTP2 && e.RespReturned && e.pumpInRead)
+}
+
 func (e *Exchange) runPump() {
 	req := e.clientReq
 	tmp := make([]byte, 32<<10)
@@ -481,10 +497,26 @@ func (e *Exchange) runPump() {
 				size = space
 			}
 		}
+		e.mu.Lock()
+		e.pumpInRead = true
+		e.updateDeaf()
+		e.mu.Unlock()
 		n, err := req.Body.Read(tmp[:size])
 		e.mu.Lock()
+		e.pumpInRead = false
+		e.updateDeaf()
 		done = e.HandlerDone
+		late := e.Call.K.HTTP2 && e.RespReturned && e.abortErr == nil
 		e.mu.Unlock()
+		if cerr := req.Context().Err(); late && cerr != nil && err == nil {
+			// back from the request body with data to send, the request
+			// goroutine notices the finished context (it selects on it wherever
+			// it waits except in that read) and resets the stream. (If the read
+			// failed, the stream is reset with the read's error, below.)
+			e.CtxNoticedLate = true
+			e.Abort(cerr)
+			return
+		}
 		if n > 0 {
 			if done {
 				// The handler is gone: the bytes go nowhere. HTTP/2 resets the
@@ -748,7 +780,15 @@ func (b *respBody) Read(p []byte) (int, error) {
 		return 0, errors.New("http: read on closed response body")
 	}
 	ctx := b.e.clientReq.Context()
-	n, err := b.e.Down.Read(p, ctx.Err)
+	n, err := b.e.Down.Read(p, func() error {
+		if b.e.Call.Ctx.Deaf() {
+			return nil // nobody has told this stream about the context yet
+		}
+		if b.e.pumpErrLive() {
+			return nil // the stream was reset because the request body failed: that error is reported
+		}
+		return ctx.Err()
+	})
 	if err == io.EOF {
 		b.e.mu.Lock()
 		if !b.e.Call.K.DropTrailers && b.e.Down.Consumed() && b.e.Down.cutAt < 0 && b.e.Trailer != nil {
